@@ -5,6 +5,7 @@ import (
 	"encoding/json"
 	"fmt"
 	"go/ast"
+	"go/token"
 	"go/types"
 	"os"
 	"path/filepath"
@@ -31,11 +32,13 @@ type RefTable struct {
 type RefFunc struct {
 	Pkg     string   `json:"pkg"`
 	Recv    string   `json:"recv,omitempty"`
+	Ptr     bool     `json:"ptr,omitempty"` // pointer receiver
 	Name    string   `json:"name"`
 	Sig     string   `json:"sig"`
 	Index   int      `json:"index"`             // order of declaration in the package (file name, offset): last tie-break
 	Shape   string   `json:"shape,omitempty"`   // hash of the body's syntax shape without identifier names: tells same-signature siblings apart
 	Callers []string `json:"callers,omitempty"` // keys of the module functions that call it (static and interface-expanded)
+	Skips   []string `json:"skips,omitempty"`   // normalised conditions under which the rest of a loop body is skipped (LoopSkipConds)
 }
 
 // RefField is one struct field of the reference tree.
@@ -198,6 +201,29 @@ type litKeyName struct {
 	real, ref string
 }
 
+// RefHasFunc reports whether the reference tree has a function with this key (true when there is no table).
+func (p *Program) RefHasFunc(key string) bool {
+	if p.refKeys == nil {
+		return true
+	}
+	return p.refKeys[key]
+}
+
+// VanishedInto lists the keys of reference functions that are gone and whose only reference caller was callerKey.
+func (p *Program) VanishedInto(callerKey string) []string {
+	var out []string
+	for k, c := range p.inlined {
+		if c == callerKey {
+			parts := strings.SplitN(k, "|", 3)
+			if len(parts) == 3 {
+				out = append(out, p.refKeyOf[k])
+			}
+		}
+	}
+	sort.Strings(out)
+	return out
+}
+
 // UnresolvedRefs lists the functions of the reference table that are absent from this tree and were not matched.
 func (p *Program) UnresolvedRefs() []string { return p.unresolved }
 
@@ -223,7 +249,7 @@ func (p *Program) BuildRefTable() *RefTable {
 			cs = append(cs, k)
 		}
 		sort.Strings(cs)
-		t.Funcs = append(t.Funcs, RefFunc{Pkg: fd.Pkg.PkgPath, Recv: RecvTypeName(fd.Obj.Type().(*types.Signature)), Name: fd.Obj.Name(), Sig: sigString(fd.Obj), Index: order[fd.Obj], Shape: shapeOf(fd.Decl.Body), Callers: cs})
+		t.Funcs = append(t.Funcs, RefFunc{Pkg: fd.Pkg.PkgPath, Recv: RecvTypeName(fd.Obj.Type().(*types.Signature)), Ptr: recvIsPointer(fd.Obj), Name: fd.Obj.Name(), Sig: sigString(fd.Obj), Index: order[fd.Obj], Shape: shapeOf(fd.Decl.Body), Callers: cs, Skips: LoopSkipConds(fd.Pkg.TypesInfo, fd.Decl.Body)})
 	}
 	q := func(pk *types.Package) string { return pk.Path() }
 	for _, nt := range p.Named {
@@ -282,8 +308,25 @@ func (p *Program) resolveRenames() {
 	}
 	type fkey struct{ pkg, recv, name string }
 	refF := map[fkey]RefFunc{}
+	p.refKeys = map[string]bool{}
+	p.refKeyOf = map[string]string{}
 	for _, f := range ref.Funcs {
 		refF[fkey{f.Pkg, f.Recv, f.Name}] = f
+		// keys as FuncKey renders them: pointer receivers carry a star, which the table does not record - both forms
+		p.refKeys[FuncKeyRaw(f.Pkg, f.Recv, f.Name)] = true
+		if f.Recv != "" {
+			p.refKeys[ShortPkg(f.Pkg)+".(*"+f.Recv+")."+f.Name] = true
+		}
+		p.refKeyOf[f.Pkg+"|"+f.Recv+"|"+f.Name] = FuncKeyRaw(f.Pkg, f.Recv, f.Name)
+		if f.Ptr {
+			p.refKeyOf[f.Pkg+"|"+f.Recv+"|"+f.Name] = ShortPkg(f.Pkg) + ".(*" + f.Recv + ")." + f.Name
+		}
+		if len(f.Skips) > 0 {
+			if p.refSkips == nil {
+				p.refSkips = map[string][]string{}
+			}
+			p.refSkips[p.refKeyOf[f.Pkg+"|"+f.Recv+"|"+f.Name]] = f.Skips
+		}
 	}
 	cur := map[fkey]*FuncDecl{}
 	for _, fd := range p.Funcs {
@@ -558,4 +601,108 @@ func FuncKeyRaw(pkg, recv, name string) string {
 		return ShortPkg(pkg) + ".(" + recv + ")." + name
 	}
 	return ShortPkg(pkg) + "." + name
+}
+
+func recvIsPointer(fn *types.Func) bool {
+	r := fn.Type().(*types.Signature).Recv()
+	if r == nil {
+		return false
+	}
+	_, ok := r.Type().(*types.Pointer)
+	return ok
+}
+
+// RefSkips: the loop skip conditions the reference tree has in the function with this key.
+func (p *Program) RefSkips(key string) []string { return p.refSkips[key] }
+
+// NormCond renders a condition with its polarity in front ("+" / "-"), negations and != folded into the sign, locals by type.
+func NormCond(info *types.Info, e ast.Expr) string {
+	sign := true
+	for {
+		e = ast.Unparen(e)
+		if u, ok := e.(*ast.UnaryExpr); ok && u.Op == token.NOT {
+			sign = !sign
+			e = u.X
+			continue
+		}
+		break
+	}
+	txt := Stable(info, e)
+	if b, ok := e.(*ast.BinaryExpr); ok && b.Op == token.NEQ {
+		sign = !sign
+		txt = Stable(info, b.X) + " == " + Stable(info, b.Y)
+	}
+	if sign {
+		return "+" + txt
+	}
+	return "-" + txt
+}
+
+// NegCond flips the polarity of a NormCond rendering.
+func NegCond(c string) string {
+	if strings.HasPrefix(c, "+") {
+		return "-" + c[1:]
+	}
+	return "+" + strings.TrimPrefix(c, "-")
+}
+
+func endsWithJump(b *ast.BlockStmt) bool {
+	if b == nil || len(b.List) == 0 {
+		return false
+	}
+	switch x := b.List[len(b.List)-1].(type) {
+	case *ast.BranchStmt:
+		return x.Tok == token.CONTINUE || x.Tok == token.BREAK
+	case *ast.ReturnStmt:
+		return true
+	}
+	return false
+}
+
+// LoopSkipConds lists, for the if statements inside the loops of body, the condition under which what follows (or what the
+// if guards) does not run for the current element: `if C { ...; continue }` skips under C, `if G { work }` skips under !G.
+// Both forms of the same guard give the same entry, so turning one into the other is not a new way of dropping an element.
+func LoopSkipConds(info *types.Info, body *ast.BlockStmt) []string {
+	if body == nil {
+		return nil
+	}
+	set := map[string]bool{}
+	var visit func(n ast.Node, inLoop bool)
+	visit = func(n ast.Node, inLoop bool) {
+		ast.Inspect(n, func(m ast.Node) bool {
+			if m == nil || m == n {
+				return true
+			}
+			switch x := m.(type) {
+			case *ast.FuncLit:
+				visit(x.Body, false)
+				return false
+			case *ast.ForStmt:
+				visit(x.Body, true)
+				return false
+			case *ast.RangeStmt:
+				visit(x.Body, true)
+				return false
+			case *ast.IfStmt:
+				if inLoop {
+					c := NormCond(info, x.Cond)
+					els, _ := x.Else.(*ast.BlockStmt)
+					switch {
+					case endsWithJump(x.Body):
+						set[c] = true
+					case x.Else == nil || endsWithJump(els):
+						set[NegCond(c)] = true
+					}
+				}
+			}
+			return true
+		})
+	}
+	visit(body, false)
+	var out []string
+	for k := range set {
+		out = append(out, k)
+	}
+	sort.Strings(out)
+	return out
 }
